@@ -73,6 +73,14 @@ def gen_cases(tier, seed):
         if rng.random() < 0.5:
             case["pack"]["sym"] = True
             case["pack"]["inferral"] = ["minimise", "rename"][: rng.randint(1, 2)]
+        trng = intuniv.rng_for(seed, "C07s/track", i)
+        if trng.random() < 0.2 and not case["cls"].get("flags"):
+            # a union whose child carries a statistic the parent does not have (summed out going
+            # up); the start class gets few statistics so that the tracked one is visible
+            case["pack"]["inferral"] = ["track"] + [x for x in case["pack"]["inferral"] if x != "rename"]
+            case["cls"]["stats"] = case["cls"]["stats"][: trng.choice((0, 0, 1))]
+            if case["cls"].get("right"):
+                case["cls"]["right"]["stats"] = case["cls"]["stats"]
         case["schedule"] = searchlib.rand_schedule(rng, iterative=case["pack"]["iterative"])
         case.update(kind="spec", id=k, N=N[tier])
         k += 1
@@ -84,6 +92,65 @@ def gen_cases(tier, seed):
         cls["proper"] = rng.random() < 0.25
         yield {"id": k, "kind": "maps", "cls": cls, "seed": f"{seed}/C07m/{i}", "N": N[tier]}
         k += 1
+
+
+class Injected(BaseException):
+    """Raised from inside an object map to interrupt a generation call (stands for Ctrl-C, a
+    timeout signal, an exception of a strategy's backward map)."""
+
+
+def interrupted_generation(spec, desc, names, upto, rng):
+    """Fault injection: on fresh copies of the specification (JSON reload: empty caches), a
+    generation call is interrupted at the k-th backward map; the same specification object is
+    then asked again for every size and must still give exactly the objects."""
+    import json
+
+    from comb_spec_searcher import CombinatorialSpecification
+    from comb_spec_searcher.strategies import rule as rule_mod
+
+    cx = base.ctx()
+    blob = json.dumps(spec.to_jsonable())
+    orig = rule_mod.Rule.backward_map
+    state = {"calls": 0, "at": None}
+
+    def backward_map(self, objs):
+        state["calls"] += 1
+        if state["at"] is not None and state["calls"] == state["at"]:
+            raise Injected()
+        return orig(self, objs)
+
+    rule_mod.Rule.backward_map = backward_map
+    try:
+        fresh = CombinatorialSpecification.from_dict(json.loads(blob))
+        for n in range(upto + 1):
+            fresh.get_objects(n)
+        total = state["calls"]
+        if total == 0:
+            return
+        for at in sorted({1, total, rng.randint(1, total), rng.randint(1, total)}):
+            fresh = CombinatorialSpecification.from_dict(json.loads(blob))
+            state.update(calls=0, at=at)
+            try:
+                for n in range(upto + 1):
+                    fresh.get_objects(n)
+                interrupted = False
+            except Injected:
+                interrupted = True
+            state["at"] = None
+            if not interrupted:
+                continue
+            cx.count("c07.generations_interrupted")
+            for n in range(upto + 1):
+                fresh.get_objects(n)  # postcondition: exact
+                for p, ws in rw.objects_by_params(desc, n).items():
+                    got = Counter(map(str, fresh.generate_objects_of_size(n, **dict(zip(names, p)))))
+                    cx.count("c07.generate_calls_compared_after_interruption")
+                    if got != Counter(ws):
+                        cx.violation("C07:objects-wrong-after-interrupted-generation",
+                                     f"generation interrupted at backward map #{at} of {total}, then size {n} "
+                                     f"params {p}: generated {dict(got)}, truth {sorted(ws)}", {"n": n, "at": at})
+    finally:
+        rule_mod.Rule.backward_map = orig
 
 
 def run_spec(case):
@@ -116,6 +183,8 @@ def run_spec(case):
         cx.count("c07.specs_not_generating_not_judged")
         return {"skip": "specification cannot generate (reverse rule that is not an equivalence)"}
     cx.count("c07.specs_generating")
+    if intuniv.rng_for("c07/inject", case["id"]).random() < 0.35:
+        interrupted_generation(spec, desc, names, min(case["N"], 5), intuniv.rng_for("c07/inject-k", case["id"]))
     if "EquivalencePathRule+reverse" in prof["kinds"]:
         cx.count("c07.specs_with_path_and_reverse")
     cx.see("db", case["db"])
